@@ -401,6 +401,33 @@ def hand_through_rule(ctx, rule):
                            how="the read text is only borrowed")
         if n == 0:
             rep.fail(rule, "text-unchanged::load_and_run", "no call of run_from_command_line under load_and_run_from_command_line", lr.loc())
+    # ... and all the way down: wherever code under src/cli hands a text it received as `&str` on to the library or to another cli
+    # function, the text is the parameter itself
+    n_hand = 0
+    for fn in F.all_bodies(tests=False):
+        if not fn.file.startswith("src/cli/") or fn.kind == "closure":
+            continue
+        strs = [i for i in range(1, fn.argc + 1) if fn.local_ty(i).s in ("&str", "&'a str", "&'_ str") or fn.local_ty(i).s.replace("'_ ", "").replace("'a ", "") == "&str"]
+        if not strs:
+            continue
+        for body in F.with_closures(fn):
+            for bi, t in body.calls():
+                d_ = callee_def(t) or ""
+                if not d_.startswith(("cli::", "frontend::", "exec::", "linter::")):
+                    continue
+                for a in t["args"]:
+                    al = op_local(a)
+                    if al is None or body.local_ty(al).s.replace("'_ ", "").replace("'a ", "") != "&str":
+                        continue
+                    deep = kind_deep(body, a)
+                    if body is fn and any(dd[0] == "param" and dd[1] in strs for dd, _ in deep):
+                        n_hand += 1
+                        names = {body.term(dd[1])["callee"].get("name") or "?" for dd, _ in deep if dd[0] == "call"}
+                        bad = sorted(x for x in names if x not in BORROW)
+                        rep.ob(rule, "text-unchanged::%s->%s" % (fn.path, d_.rsplit("::", 2)[-2] + "::" + d_.rsplit("::", 1)[-1]), not bad,
+                               "" if not bad else "%s applies %s to the source text before handing it to %s: the binary parses a different text from the one the library is given" % (fn.path, bad, d_),
+                               body.loc(t["line"]), how="the text is the parameter itself")
+    rep.floor(rule + ".hand", n_hand, 3, "places where src/cli hands the source text on")
     # diagnostics
     n_acc = 0
     for fn, bi, kind, st in common.field_accesses(F, "linter::LinterResult", "diags"):
